@@ -60,6 +60,8 @@ type c20Class struct {
 
 type c20State struct {
 	may, must c20Set
+	// mustW: locks held EXCLUSIVELY (Lock, not RLock) on every path; a write is only protected by these
+	mustW c20Set
 }
 
 type c20Event struct {
@@ -122,6 +124,7 @@ type c20Func struct {
 	// fixpoints
 	entryMay  c20Set
 	entryMust c20Set
+	entryMustW c20Set // held exclusively at entry on every path
 	mayWhy    map[int]*c20Site
 	acq       c20Set
 	// constructor context: accesses through a freshly created object
@@ -577,12 +580,15 @@ func (w *c20Walker) run() {
 	// deferred unlocks and deferred calls
 	var retMay c20Set
 	retMust := ^c20Set(0)
+	retMustW := ^c20Set(0)
 	for _, r := range w.returns {
 		retMay |= r.may
 		retMust &= r.must
+		retMustW &= r.mustW
 	}
 	if len(w.returns) == 0 {
 		retMust = 0
+		retMustW = 0
 	}
 	var unl c20Set
 	for i, d := range w.defers {
@@ -592,12 +598,14 @@ func (w *c20Walker) run() {
 		}
 		// locks whose deferred unlock was registered AFTER this deferred call are released before it runs
 		must := retMust
+		mustW := retMustW
 		for _, d2 := range w.defers[i+1:] {
 			if d2.unlock >= 0 {
 				must &^= 1 << uint(d2.unlock)
+				mustW &^= 1 << uint(d2.unlock)
 			}
 		}
-		d.ev.st = c20State{may: retMay | d.ev.st.may, must: must & d.ev.st.must}
+		d.ev.st = c20State{may: retMay | d.ev.st.may, must: must & d.ev.st.must, mustW: mustW & d.ev.st.mustW}
 	}
 	for _, r := range w.returns {
 		if left := r.may &^ unl; left != 0 {
@@ -779,10 +787,11 @@ func c20Merge(states []c20State) (c20State, bool) {
 	if len(states) == 0 {
 		return c20State{}, false
 	}
-	out := c20State{must: ^c20Set(0)}
+	out := c20State{must: ^c20Set(0), mustW: ^c20Set(0)}
 	for _, s := range states {
 		out.may |= s.may
 		out.must &= s.must
+		out.mustW &= s.mustW
 	}
 	return out, true
 }
@@ -1605,9 +1614,13 @@ func (w *c20Walker) call(c *ast.CallExpr, st *c20State) {
 			w.ev(&c20Event{kind: c20EvAcquire, pos: c.Pos(), st: *st, lock: cls, once: -1})
 			st.may |= bit
 			st.must |= bit
+			if op == "Lock" {
+				st.mustW |= bit
+			}
 		case "Unlock", "RUnlock":
 			st.may &^= bit
 			st.must &^= bit
+			st.mustW &^= bit
 		case "TryLock", "TryRLock":
 			w.a.notes = append(w.a.notes, "TryLock at "+w.a.p.posStr(c.Pos())+" (treated as may-acquire)")
 			w.ev(&c20Event{kind: c20EvAcquire, pos: c.Pos(), st: *st, lock: cls, once: -1})
@@ -2120,9 +2133,18 @@ func (a *c20Analysis) propagate() {
 	for _, f := range a.funcs {
 		if f.root {
 			f.entryMust = 0
+			f.entryMustW = 0
 		} else {
 			f.entryMust = all
+			f.entryMustW = all
 		}
+	}
+	siteMustW := func(s *c20Site) c20Set {
+		m := s.caller.entryMustW | s.ev.st.mustW
+		if s.ev.once >= 0 {
+			m |= 1 << uint(s.ev.once)
+		}
+		return m
 	}
 	siteMust := func(s *c20Site) c20Set {
 		m := s.caller.entryMust | s.ev.st.must
@@ -2152,11 +2174,17 @@ func (a *c20Analysis) propagate() {
 				continue
 			}
 			m := all
+			mw := all
 			for _, s := range f.in {
 				m &= siteMust(s)
+				mw &= siteMustW(s)
 			}
 			if m != f.entryMust {
 				f.entryMust = m
+				changed = true
+			}
+			if mw != f.entryMustW {
+				f.entryMustW = mw
 				changed = true
 			}
 		}
